@@ -88,27 +88,68 @@ Section FS.
     apply NoDup_map_inj_in; [assumption|]. intros x y Hx Hy. apply (path_injective strop es ext outdir types); assumption.
   Qed.
 
-  Theorem targets_distinct :
+  (* general form: the only thing needed about the namespace-file stem is that no namespace file is a type file *)
+  Theorem targets_distinct_gen :
     (forall x y, In x (names_of types) -> In y (names_of types) -> pstrop strop es x = pstrop strop es y -> x = y) ->
     (forall t, In t types -> ~ In DOT (pstrop strop es (base_name t))) ->
     ns_fold strop types = false ->                                   (* no two namespaces with the same stropped spelling *)
-    ~ In DOT stem ->
-    (forall t, In t types -> pstrop strop es (base_name t) <> stem) ->   (* the namespace file stem is not a type's file stem *)
+    (forall k t, In k (keys (fst B)) -> In t types -> np k <> op t) ->
     forall g, NoDup (T g).
   Proof.
-    intros Hinj Hdot Hfold Hsd Hstem [|]; [|apply targets_distinct_types_only; assumption].
+    intros Hinj Hdot Hfold Hsep [|]; [|apply targets_distinct_types_only; assumption].
     destruct targets_perm as [P _]. eapply Permutation_NoDup; [apply Permutation_sym, P|].
     destruct (ns_each_once strop same es ext outdir perm perm_perm types r Hnd Hroot Hne) as [Hkn Hkeys].
     apply NoDup_app_intro.
     - apply NoDup_map_inj_in; [assumption|]. intros k1 k2 H1 H2 E.
-      rewrite !ns_path_shape in E by assumption. apply app_inv_head in E. apply app_inj_tail in E. destruct E as [E _].
+      unfold ns_path in E. apply app_inv_head in E. apply app_inj_tail in E. destruct E as [E _].
       apply (ns_fold_false_inj strop types Hfold); [apply Hkeys | apply Hkeys |]; assumption.
     - apply NoDup_map_inj_in; [assumption|]. intros x y Hx Hy. apply (path_injective strop es ext outdir types); assumption.
     - intros q Hq1 Hq2. apply in_map_iff in Hq1. destruct Hq1 as (k & <- & Hk).
-      apply in_map_iff in Hq2. destruct Hq2 as (t & E & Ht).
-      rewrite ns_path_shape in E by assumption. rewrite path_shape in E by (apply Hdot; assumption).
-      apply app_inv_head in E. apply app_inj_tail in E. destruct E as [_ E]. apply app_inv_tail in E.
-      exact (Hstem t Ht E).
+      apply in_map_iff in Hq2. destruct Hq2 as (t & E & Ht). exact (Hsep k t Hk Ht (eq_sym E)).
+  Qed.
+
+  Theorem targets_distinct :
+    (forall x y, In x (names_of types) -> In y (names_of types) -> pstrop strop es x = pstrop strop es y -> x = y) ->
+    (forall t, In t types -> ~ In DOT (pstrop strop es (base_name t))) ->
+    ns_fold strop types = false ->
+    ~ In DOT stem ->
+    (forall t, In t types -> pstrop strop es (base_name t) <> stem) ->   (* the namespace file stem is not a type's file stem *)
+    forall g, NoDup (T g).
+  Proof.
+    intros Hinj Hdot Hfold Hsd Hstem. apply targets_distinct_gen; try assumption.
+    intros k t Hk Ht E. rewrite ns_path_shape in E by assumption. rewrite path_shape in E by (apply Hdot; assumption).
+    apply app_inv_head in E. apply app_inj_tail in E. destruct E as [_ E]. apply app_inv_tail in E.
+    exact (Hstem t Ht (eq_sym E)).
+  Qed.
+
+  (* with the stem check in the code: every run of build_namespace_tree that does not raise has distinct targets, whatever the stem *)
+  Lemma stem_collides_false :
+    stem_collides strop es ext stem outdir (fst B) types = false ->
+    forall k t, In k (keys (fst B)) -> In t types -> np k <> op t.
+  Proof.
+    unfold stem_collides. intros H k t Hk Ht E.
+    assert (X : existsb (fun k => existsb (fun t => key_eqb (np k) (op t)) types) (keys (fst B)) = true); [|congruence].
+    apply existsb_exists. exists k; split; [assumption|]. apply existsb_exists. exists t; split; [assumption|].
+    rewrite E. apply key_eqb_refl.
+  Qed.
+
+  (* the stem precondition in terms of the regenerated fact `chk` (does the code have the check?) *)
+  Definition stem_guard (chk : bool) : Prop :=
+    if chk then True else ~ In DOT stem /\ forall t, In t types -> pstrop strop es (base_name t) <> stem.
+
+  Theorem targets_distinct_no_raise chk :
+    build_checked chk strop same es ext stem outdir perm types <> None ->
+    (forall x y, In x (names_of types) -> In y (names_of types) -> pstrop strop es x = pstrop strop es y -> x = y) ->
+    (forall t, In t types -> ~ In DOT (pstrop strop es (base_name t))) ->
+    ns_fold strop types = false ->
+    stem_guard chk ->
+    forall g, NoDup (T g).
+  Proof.
+    intros Hrun Hinj Hdot Hfold Hguard. destruct chk.
+    - apply targets_distinct_gen; try assumption. apply stem_collides_false.
+      unfold build_checked in Hrun. cbn [andb] in Hrun.
+      destruct (stem_collides strop es ext stem outdir (fst B) types); [congruence | reflexivity].
+    - destruct Hguard as [Hsd Hstem]. apply targets_distinct; assumption.
   Qed.
 
   (* what C12 needs: any injective encoding of paths keeps the targets distinct *)
@@ -166,3 +207,8 @@ Proof.
   apply sort_keys_set_determined; try assumption.
   intros c. rewrite C1, C2, K1, K2. tauto.
 Qed.
+
+Lemma stem_collision_raises_when_checked :
+  build_checked true same same true w_ext w_stem w_out w_id [w_T] = None /\
+  build_checked false same same true w_ext w_stem w_out w_id [w_T] <> None.
+Proof. vm_compute. split; [reflexivity | discriminate]. Qed.
